@@ -198,6 +198,9 @@ func NewRun(k Knobs, seed int64, rep *monitor.Report, caseID string, trace io.Wr
 	if k.SortedView {
 		env.ViewRng = nil
 	}
+	if !k.StatelessClock {
+		env.GCLag = pick(master, 0, 0, 0, 1, 2)
+	}
 	run := &Run{K: k, Env: env, Master: master, Rep: rep, Trace: trace, scanInterval: 60 * time.Second, external: map[int]string{}}
 	if master.Float64() < k.PDebugLog {
 		sim.SetLogLevel(log.DebugLevel)
@@ -577,6 +580,19 @@ func (run *Run) applyOp(gi int, op string) {
 			}
 			run.tracef("  op g%d asg-bounds min=%d max=%d", gi, g.Min, g.Max)
 		}
+	case "extra-node":
+		// a machine joins the group's label without belonging to the cloud group's capacity plan (pushes the node
+		// count towards or beyond max_nodes)
+		g := env.ASGOf(gi)
+		if g != nil && len(names) > 0 && len(names) <= env.Groups[gi].Opts.MaxNodes+1 {
+			inst := env.AWS.Launch(g, "us-east-1a")
+			g.Desired = int64(len(g.Instances))
+			if g.Max < g.Desired {
+				g.Max = g.Desired
+			}
+			env.K.PutNode(env.BuildNode(gi, inst, time.Now()))
+			run.tracef("  op g%d extra-node %s", gi, sim.NodeNameFor(inst.ID))
+		}
 	case "foreign-pod":
 		// a pod that belongs to no group (or to the default group) lands on one of this group's nodes
 		if n := preferTainted(); n != "" {
@@ -716,7 +732,7 @@ func (run *Run) Step(s int) *monitor.ScanCtx {
 	}
 	run.nextStale = false
 	rMid := m.Float64()
-	midPick, midKind := m.Intn(1<<30), m.Intn(7)
+	midPick, midKind := m.Intn(1<<30), m.Intn(9)
 	if rMid < k.PMidScan && !opts.StaleView {
 		// something else changes a node between the cache snapshot and escalator's fetch-latest
 		var all []string
@@ -726,11 +742,28 @@ func (run *Run) Step(s int) *monitor.ScanCtx {
 		if len(all) > 0 {
 			victim := all[midPick%len(all)]
 			done := false
+			if midKind >= 5 {
+				victim = "" // whichever node escalator writes first in this scan
+			}
 			change := func(name string) {
-				if done || name != victim {
+				if done || (victim != "" && name != victim) {
 					return
 				}
+				victim = name
 				done = true
+				if midKind >= 7 {
+					// a foreign taint in front of the others is lifted (e.g. the node became ready again)
+					env.K.MutateNode(victim, func(x *v1.Node) {
+						for i, t := range x.Spec.Taints {
+							if t.Key != sim.EscalatorTaint && t.Key != sim.ForceTaint {
+								x.Spec.Taints = append(append([]v1.Taint{}, x.Spec.Taints[:i]...), x.Spec.Taints[i+1:]...)
+								break
+							}
+						}
+					})
+					run.tracef("  mid-scan: a foreign taint of %s lifted (kind %d)", victim, midKind)
+					return
+				}
 				switch midKind % 5 {
 				case 4:
 					env.RemoveNodeAndPods(victim)
